@@ -87,8 +87,29 @@ func genNum(t *rapid.T, label string, intOnly bool) t1ref.Num {
 }
 
 func genStems(t *rapid.T, label string) [][2]t1ref.Num {
-	n := rapid.IntRange(0, 4).Draw(t, label+"n")
 	var s [][2]t1ref.Num
+	if rapid.IntRange(0, 5).Draw(t, label+"regular") == 0 {
+		// a regular group as real fonts have them (the three stems of an m or
+		// an E: equal outer widths, centres evenly spaced) with 0-2 other
+		// stems before and after it, in ascending order
+		pos := int32(rapid.IntRange(-400, 100).Draw(t, label+"start"))
+		plain := func() {
+			for k := rapid.IntRange(0, 2).Draw(t, label+"plain"); k > 0; k-- {
+				w := int32(rapid.IntRange(1, 60).Draw(t, label+"pw"))
+				s = append(s, [2]t1ref.Num{t1ref.I(pos), t1ref.I(w)})
+				pos += w + int32(rapid.IntRange(1, 80).Draw(t, label+"pgap"))
+			}
+		}
+		plain()
+		w := 2 * int32(rapid.IntRange(1, 40).Draw(t, label+"w"))
+		w1 := 2 * int32(rapid.IntRange(1, 40).Draw(t, label+"w1"))
+		g := (w+w1)/2 + int32(rapid.IntRange(1, 120).Draw(t, label+"g"))
+		s = append(s, [2]t1ref.Num{t1ref.I(pos), t1ref.I(w)}, [2]t1ref.Num{t1ref.I(pos + w/2 + g - w1/2), t1ref.I(w1)}, [2]t1ref.Num{t1ref.I(pos + 2*g), t1ref.I(w)})
+		pos += 2*g + w + int32(rapid.IntRange(1, 80).Draw(t, label+"tgap"))
+		plain()
+		return s
+	}
+	n := rapid.IntRange(0, 4).Draw(t, label+"n")
 	for i := 0; i < n; i++ {
 		pos := int32(rapid.IntRange(-2000, 4000).Draw(t, label+"pos"))
 		w := int32(rapid.IntRange(-21, 300).Draw(t, label+"w")) // -20/-21 are the ghost stem widths
